@@ -53,6 +53,9 @@ def cases(tier, seed):
         for vop in ("complete", "fail"):
             out.append({"name": "retain.sweep/%s/%s|cancel" % (t, vop), "kind": "retsweep", "layer": t, "vop": vop,
                         "cap": 24 if tier == "quick" else None})
+        out.append({"name": "retain.sweep/%s/cancel|workers" % t, "kind": "retsweep", "layer": t, "vop": "cancel", "cap": None})
+    for t in ("retry", "timeout", "poll", "throttle"):
+        out.append({"name": "exit.registry/%s" % t, "kind": "registry", "layer": t, "cap": None})
     for st in (["map", "retry"], ["retry", "throttle"], ["poll", "timeout"], ["throttle", "poll", "map"]):
         out.append({"name": "retain.history/%s" % ">".join(st), "kind": "retain", "layer": ">".join(st)})
     return out
@@ -481,7 +484,10 @@ class RetSweepScenario(object):
         ctx.wr = {"callable": weakref.ref(job), "argument": weakref.ref(arg), "result": weakref.ref(res_obj)}
         ctx.hold["f"] = b.top.submit(job, arg)
         ctx.wr["future"] = weakref.ref(ctx.hold["f"])
-        ctx.hold["f2"] = b.top.submit(Job("other", 0), 0)
+        if self.case["vop"] != "cancel":
+            ctx.hold["f2"] = b.top.submit(Job("other", 0), 0)
+        # (vop cancel: nothing else goes on in this executor afterwards - no other completion that would make a
+        # worker thread look at its bookkeeping again)
         instr.advance(0.05)
         return ctx
 
@@ -490,6 +496,10 @@ class RetSweepScenario(object):
 
     def start_victim(self, ctx):
         def act():
+            if self.case["vop"] == "cancel":
+                # the user's cancel() is the suspended side; the worker threads run meanwhile
+                ctx.hold["f"].cancel()
+                return
             p = ctx.me.pending()
             if p:
                 if self.case["vop"] == "complete":
@@ -499,6 +509,12 @@ class RetSweepScenario(object):
         return ctx.actor("V", act).go()
 
     def intervene(self, ctx):
+        if self.case["vop"] == "cancel":
+            try:
+                instr.wait_for(instr.quiescent_but_me, timeout=5.0)
+            except Inconclusive:
+                pass
+            return
         f = ctx.hold.get("f")
         if f is not None:
             f.cancel()
@@ -537,6 +553,72 @@ class RetSweepScenario(object):
         except Exception:
             pass
         ctx.hold.clear()
+
+
+class RegistryScenario(object):
+    """Invariant at a hook: every event an executor obtained from the library's shutdown-aware registry is in that
+    registry (the exit hook sets exactly those).  One executor is being constructed (suspended at instruction
+    boundaries) while another thread drops the last reference to an unrelated event, which prunes the registry."""
+
+    def __init__(self, case):
+        self.case = case
+
+    def setup(self):
+        ctx = Ctx()
+        ctx.evmod = sys.modules[instr.ME.__name__ + "._impl.event"]
+        ctx.spare = [ctx.evmod.get_event() for _ in range(2)]
+        ctx.me = ManualExecutor("me")
+        ctx.own(ctx.me)
+        ctx.ex = None
+        return ctx
+
+    def victim_role(self, ctx):
+        return "V"
+
+    def start_victim(self, ctx):
+        ME = instr.ME
+        t = self.case["layer"]
+
+        def build():
+            if t == "retry":
+                ctx.ex = ME.Executors.with_retry(ctx.me)
+            elif t == "timeout":
+                ctx.ex = ME.Executors.with_timeout(ctx.me, 500.0)
+            elif t == "poll":
+                ctx.ex = ME.Executors.with_poll(ctx.me, lambda ds: None, None, 20.0)
+            else:
+                ctx.ex = ME.Executors.with_throttle(ctx.me, 2)
+            ctx.own(ctx.ex)
+        return ctx.actor("V", build).go()
+
+    def intervene(self, ctx):
+        # the last reference to an unrelated event goes away: its weakref callback prunes the registry
+        ctx.spare.pop()
+
+    def finish(self, ctx):
+        instr.settle()
+
+    def oracle(self, ctx, res, info):
+        label = "%s placement=%s" % (self.case["name"], info.get("site"))
+        if ctx.ex is None:
+            res.inconclusive.append("%s: executor was not constructed" % label)
+            return
+        handler = ctx.evmod.GLOBAL_HANDLER
+        registered = set(id(r()) for r in handler.events if r() is not None)
+        evs = [(k, v) for k, v in vars(ctx.ex).items() if isinstance(v, (instr.VEvent, instr._RealEvent))]
+        if not evs:
+            res.inconclusive.append("%s: no event attribute found on %s" % (label, type(ctx.ex).__name__))
+        for k, v in evs:
+            if id(v) not in registered:
+                res.violation("exit-registry/event-not-registered/%s" % self.case["layer"],
+                              "%s: %s.%s was handed out by get_event() but is not in the registry the exit hook walks: the worker "
+                              "thread would not be woken at interpreter exit" % (label, type(ctx.ex).__name__, k))
+        for sp in ctx.spare:
+            if id(sp) not in registered:
+                res.violation("exit-registry/event-not-registered/other", "%s: an unrelated live event fell out of the registry" % label)
+        res.count("registry_invariant_checks", len(evs))
+        if info.get("hit"):
+            res.key("registry", self.case["layer"], info.get("site"))
 
 
 def run_keepalive(case, res):
@@ -658,5 +740,8 @@ def run_case(case, res):
     elif k == "retsweep":
         rng = random.Random("c12r/%s/%s" % (case["seed"], case["name"]))
         Sweep(RetSweepScenario(case), res, "vt", case["name"]).run(case["cap"], rng, per_site=2)
+    elif k == "registry":
+        rng = random.Random("c12g/%s/%s" % (case["seed"], case["name"]))
+        Sweep(RegistryScenario(case), res, "vt", case["name"], gran="instr").run(case["cap"], rng, per_site=2)
     else:
         run_exit(case, res)
